@@ -39,8 +39,7 @@ type caseJSON struct {
 }
 
 const (
-	kfReserved  = "reserved-offering-priced-but-not-reserved"
-	kfEmptiness = "emptiness-deletes-nodes-with-nonpositive-cost-pods-without-simulation"
+	kfReserved = "reserved-offering-priced-but-not-reserved"
 )
 
 func candSet(cs []*disruption.Candidate) map[string]bool {
@@ -493,7 +492,7 @@ func runEmpty(c *kit.Ctx, g genOut, forceReal bool) {
 		panic(fmt.Sprintf("emptiness ComputeCommands: %v", err))
 	}
 	var sel []string
-	kf := ""
+	withPods := false
 	for _, cmd := range cmds {
 		if cmd.Decision() != disruption.DeleteDecision {
 			c.Fail(c.NextID(), "corr:projection: emptiness command is not a delete", "", g.spec)
@@ -501,17 +500,17 @@ func runEmpty(c *kit.Ctx, g genOut, forceReal bool) {
 		for _, cd := range cmd.Candidates {
 			sel = append(sel, cd.Name())
 			if _, _, _, pods := cd.VerifInternals(); len(pods) > 0 {
-				kf = kfEmptiness
+				withPods = true // a node whose pods all have eviction cost <= 0 counts as empty (by design)
 			}
 		}
 	}
 	sort.Strings(sel)
 	key := fmt.Sprintf("empty:selected=%d_of_%d", len(sel), len(cs))
 	c.Count("method/" + key)
-	if kf != "" {
-		c.Count("shape:empty_node_with_pods")
+	if withPods {
+		c.Count("shape:empty_node_with_nonpositive_cost_pods")
 	}
-	c.AddCase(fmt.Sprintf("CaseEmpty %s %s", given, gstrs(sel)), caseJSON{Kind: "emptiness", World: w.spec, Cands: names(cs), KF: kf, Extra: map[string]bool{"real_validator": real}}, key+kf)
+	c.AddCase(fmt.Sprintf("CaseEmpty %s %s", given, gstrs(sel)), caseJSON{Kind: "emptiness", World: w.spec, Cands: names(cs), Extra: map[string]bool{"real_validator": real}}, fmt.Sprint(key, withPods))
 }
 
 // ---- pure units
